@@ -134,6 +134,7 @@ theorem step_inv (s : St) (op : Op) (h : Inv s) : Inv (step true s op).1 := by
         | alive => exact ⟨rfl, by simp [closeCount_snoc, h.count], fun _ => h.opn hc', fun hx => by simp at hx⟩
         | over => exact ⟨rfl, by simp [closeCount_snoc, h.count], fun _ => h.opn hc', fun hx => by simp at hx⟩
         | cancelled => exact ⟨rfl, h.count, fun _ => h.opn hc', fun hx => by simp at hx⟩
+  | closeDeadline p => exact ⟨h.wd, h.count, h.opn, h.cls⟩
 
 theorem run_inv (ops : List Op) : ∀ s : St, Inv s → Inv (run true s ops).1 := by
   induction ops with
